@@ -31,7 +31,7 @@ package regular
 
 //@ func (*Handler).challengePubKey(h, param)
 //@   flag logged
-//@   requires h != nil && h.conf != nil && h.agent != nil && param != nil
+//@   requires h != nil && param != nil
 //@   let g0 = old(calls(getPubKeyBytes))
 //@   let p0 = old(calls(ssh.ParseAuthorizedKey))
 //@   let r0 = old(calls(rand.Read))
@@ -54,7 +54,7 @@ package regular
 //@   ensures result == "paranoids.regular"
 
 //@ func (*Handler).Authenticate(h, param)
-//@   requires h != nil && h.conf != nil && h.agent != nil
+//@   requires h != nil
 //@   requires param != nil ==> param.Attrs != nil
 //@   let c0 = old(calls(challengePubKey))
 //@   ensures [only-after-proof-of-possession] result == nil ==> (param != nil && param.NamespacePolicy == "NONS" && !param.Attrs.HardKey &&
@@ -87,7 +87,7 @@ package regular
 
 //@ func (*Handler).generateAgentKey(h)
 //@   flag logged
-//@   requires h != nil && h.conf != nil && h.agent != nil
+//@   requires h != nil
 //@   let n0 = old(calls(ssh.NewSSHAgentKeyWithOpt))
 //@   ensures calls(ssh.NewSSHAgentKeyWithOpt) == n0 + 1 && arg(ssh.NewSSHAgentKeyWithOpt, n0, 0) == h.agent
 //@   ensures [lifetime-is-validity-plus-one-hour] arg(ssh.NewSSHAgentKeyWithOpt, n0, 1).PrivateKeyValiditySec == ((h.conf.CertValiditySec % 4294967296) + 3600) % 4294967296
@@ -108,7 +108,7 @@ package regular
 //@ # Generate: every field of the one signing request and of the KeyID it carries.
 //@ func (*Handler).Generate(h, param)
 //@   flag logged
-//@   requires h != nil && h.conf != nil && h.agent != nil
+//@   requires h != nil
 //@   requires param != nil ==> param.Attrs != nil
 //@   let g0 = old(calls(generateAgentKey))
 //@   let m0 = old(calls(ssh.MarshalAuthorizedKey))
@@ -118,7 +118,7 @@ package regular
 //@     pl(result0[0]) != 0 && len(result0[0].(*csrAgentKey).csrs) == 1 && result0[0].(*csrAgentKey).csrs[0] != nil && fresh(result0[0].(*csrAgentKey).csrs[0]))
 //@   ensures [single-principal-is-the-server-side-login-name] err == nil ==> (len(result0[0].(*csrAgentKey).csrs[0].Principals) == 1 &&
 //@     result0[0].(*csrAgentKey).csrs[0].Principals[0] == param.LogName)
-//@   ensures [configured-validity] err == nil ==> result0[0].(*csrAgentKey).csrs[0].Validity == h.certValiditySec
+//@   ensures [configured-validity] err == nil ==> result0[0].(*csrAgentKey).csrs[0].Validity == h.conf.CertValiditySec
 //@   ensures [default-extension-set] err == nil ==> (result0[0].(*csrAgentKey).csrs[0].Extensions != nil && crypki.defaultExtDom(result0[0].(*csrAgentKey).csrs[0].Extensions) &&
 //@     result0[0].(*csrAgentKey).csrs[0].Extensions["permit-pty"] == "" && result0[0].(*csrAgentKey).csrs[0].Extensions["permit-X11-forwarding"] == "" &&
 //@     result0[0].(*csrAgentKey).csrs[0].Extensions["permit-agent-forwarding"] == "" && result0[0].(*csrAgentKey).csrs[0].Extensions["permit-port-forwarding"] == "" &&
@@ -136,3 +136,11 @@ package regular
 //@     keyid.enc(elems(result0[0].(*csrAgentKey).csrs[0].Principals), 1, param.TransID, param.ReqUser, param.ClientIP, param.ReqHost,
 //@       false, false, false, false, 0, 1, 1)
 //@   ensures calls(generateAgentKey) <= g0 + 1
+
+//@ # ---------------------------------------------------------------- the handler object: built by NewHandler only, never reconfigured
+//@ immutable Handler.certValiditySec, Handler.agent, Handler.conf, conf.CertValiditySec
+//@ objinv Handler(h) by NewHandler over Handler.certValiditySec, Handler.agent, Handler.conf, conf.CertValiditySec: h.conf != nil && h.agent != nil && h.certValiditySec == h.conf.CertValiditySec
+//@ func NewHandler(gensignConf, conn)
+//@   requires gensignConf != nil
+//@   ensures err != nil ==> result0 == nil
+//@   ensures err == nil ==> (typeof(result0) == *Handler && pl(result0) != 0 && fresh(pl(result0)))
